@@ -45,7 +45,8 @@ RULE = (
 )
 MUST_HIT = ["input_stdin", "input_wav", "input_raw", "input_noext_f_raw", "opt_u_int", "opt_u_mix", "opt_M", "opt_L",
             "opt_q", "opt_j_without_O", "opt_O", "opt_O_raw", "opt_o", "opt_j", "fmt_S", "fmt_I", "fmt_hmsi", "fmt_unknown",
-            "cli_defaults_n_m_s", "default_n", "default_m", "default_s", "default_a", "default_e"]
+            "cli_defaults_n_m_s", "default_n", "default_m", "default_s", "default_a", "default_e",
+            "input_stdin_real_pipe", "window_not_whole_samples", "stdin_window_above_64KiB"]
 ASSUMPTIONS = [
     "-E, -C, -p/--save-image, -I/-F and non wav/raw formats cannot run in this sandbox (no pyaudio/pydub/ffmpeg/sox)",
     "-a values are chosen so that a*rate is an integer (window == block duration, cf. C09)",
@@ -75,7 +76,7 @@ class _FakeStdin:
         self.buffer = io.BytesIO(data)
 
 
-def run_cli(argv, stdin_data=None):
+def run_cli(argv, stdin_data=None, pipe=False):
     """-> (status, stdout, stderr, raised exception or None, hung?)"""
     if threading.active_count() != 1:
         raise HarnessError(f"process has other live threads: {threading.enumerate()}")
@@ -84,7 +85,14 @@ def run_cli(argv, stdin_data=None):
     out, err = io.StringIO(), io.StringIO()
     CMD.time = shim
     sys.argv = ["auditok"]
-    if stdin_data is not None:
+    pipe_obj = None
+    if stdin_data is not None and pipe:
+        from .c09 import _PipeStdin
+
+        step = max(len(stdin_data) // 9, 1)
+        pipe_obj = _PipeStdin(stdin_data, [step + 1, max(step - 2, 1), 3, step + 4], text=True, process=True)
+        sys.stdin = pipe_obj._wrapper  # a text stream whose .buffer(.raw) is the pipe, like the real sys.stdin
+    elif stdin_data is not None:
         sys.stdin = _FakeStdin(stdin_data)
     status, exc, hung = None, None, False
     try:
@@ -101,6 +109,8 @@ def run_cli(argv, stdin_data=None):
                 exc = e
     finally:
         CMD.time, sys.stdin, sys.argv = old_time, old_stdin, old_argv
+        if pipe_obj is not None:
+            pipe_obj.finish()
         if hung or exc is not None:
             for t in threading.enumerate():
                 if isinstance(t, W.Worker):
@@ -173,7 +183,7 @@ def check_cli(case, rec):
     sr, sw, ch, B = recd["sr"], recd["sw"], recd["ch"], recd["B"]
     data, thr = audio.synth(recd)
     aw = audio.window_arg(B, sr)
-    if aw != B / sr:
+    if aw != B / sr and not case["opts"].get("a_frac"):
         raise HarnessError("cli cases need a window that is a whole number of samples")
     opts = case["opts"]
     classes = set()
@@ -203,7 +213,10 @@ def check_cli(case, rec):
         else:
             argv.append("-")
             stdin_data = data
-        classes.add({"wav": "input_wav", "raw": "input_raw", "noext": "input_noext_f_raw", "stdin": "input_stdin"}[kind])
+            if kind == "stdin_pipe":
+                classes.add("input_stdin_real_pipe")
+        classes.add({"wav": "input_wav", "raw": "input_raw", "noext": "input_noext_f_raw", "stdin": "input_stdin",
+                     "stdin_pipe": "input_stdin"}[kind])
         if raw_params:
             # -r/-c/-w are left out when the audio happens to use the documented default
             for flag, val, dflt in (("-r", sr, 16000), ("-c", ch, 1), ("-w", sw, 2)):
@@ -228,6 +241,12 @@ def check_cli(case, rec):
                 classes.add("default_" + k_)
         if opts.get("dflt_a"):
             aw_used = 0.01
+        elif opts.get("a_frac"):
+            # -a is half a sample longer than the window really used: block = floor(a*rate) samples,
+            # and every duration is counted in that real window (the worker is a reader)
+            aw_used = (B + 0.5) / sr
+            argv += ["-a", repr(aw_used)]
+            classes.add("window_not_whole_samples")
         else:
             argv += ["-a", repr(aw)]
             aw_used = aw
@@ -261,7 +280,7 @@ def check_cli(case, rec):
                 argv += ["-M", repr(mr)]
                 vis = data[: nvis * sw * ch]
                 classes.add("opt_M")
-        if opts.get("L") and kind != "stdin":
+        if opts.get("L") and kind not in ("stdin", "stdin_pipe"):
             argv.append("-L")
             classes.add("opt_L")
         printf = opts.get("printf")
@@ -290,7 +309,7 @@ def check_cli(case, rec):
             argv.append("-q")
             classes.add("opt_q")
 
-        status, out, err, exc, hung = run_cli(argv, stdin_data)
+        status, out, err, exc, hung = run_cli(argv, stdin_data, pipe=(kind == "stdin_pipe"))
         shown = " ".join(a if not a.startswith(d) else os.path.basename(a) for a in argv)
         if hung:
             raise Violation(f"command line did not finish: auditok {shown}", case)
@@ -380,6 +399,8 @@ def check_cli(case, rec):
                 params, frames = pipeline.read_wav(name)
                 if params != (sr, sw, ch) or frames != b:
                     raise Violation(f"-o file {os.path.basename(name)} does not hold its detection", case)
+        if stdin_data is not None and B * sw * ch > 65536:
+            classes.add("stdin_window_above_64KiB")
         nondefault = sum(1 for a in argv if a.startswith("-") and len(a) > 1 and not a[1:2].isdigit())
         if tf == "%I":
             classes.add("fmt_I")
@@ -477,6 +498,11 @@ def explicit_cases():
         cli(input="wav", opts={"time_format": "%h:%M"}),
         cli(input="wav", audio=dflt, win=[20, 500, 30, False, False],
             opts={"dflt_n": True, "dflt_m": True, "dflt_s": True, "dflt_a": True, "dflt_e": True}),
+        cli(input="stdin_pipe", opts={"time_format": "%I", "a_frac": True}),
+        cli(input="stdin", audio={"sr": 16000, "sw": 2, "ch": 2, "B": 20000, "pat": "0110", "tail": [7, 0], "al": 3000, "aq": 0, "salt": 2, "uc": None},
+            win=[1, 3, 0, False, False], opts={"explicit_fmt": True}),
+        cli(input="stdin_pipe", audio={"sr": 16000, "sw": 4, "ch": 1, "B": 17000, "pat": "0101", "tail": [0, 0], "al": 3000, "aq": 0, "salt": 3, "uc": None},
+            win=[1, 3, 0, True, False], opts={}),
         cli(input="raw", audio=dflt, win=[20, 500, 30, False, False],
             opts={"dflt_n": True, "dflt_m": True, "dflt_s": True, "dflt_a": True, "dflt_e": True}),
     ]
@@ -554,7 +580,7 @@ def cli_strategy(draw, maxwin=20):
     if uc not in (None,) and not isinstance(uc, int):
         c["audio"]["uc"] = "mix" if uc in ("mix", "avg", "average") else None
     c["t"] = "cli"
-    c["input"] = draw(st.sampled_from(["wav", "raw", "noext", "stdin"]))
+    c["input"] = draw(st.sampled_from(["wav", "raw", "noext", "stdin", "stdin_pipe"]))
     N = len(c["audio"]["pat"]) * B + c["audio"]["tail"][0]
     o = {}
     if draw(st.booleans()):
@@ -577,6 +603,8 @@ def cli_strategy(draw, maxwin=20):
     if draw(st.booleans()):
         o["o"] = draw(st.sampled_from(["d{id}", "d{id}_{start:.3f}", "{id}-{end}-{duration:.2f}", "e{id}_{start}_{end}"]))
     o.update(dflt)
+    if mode == "plain" and draw(st.booleans()):
+        o["a_frac"] = True
     c["opts"] = o
     return c
 
